@@ -494,9 +494,11 @@ static void runGP(IntReader &r) {
   if (narrow || !posCell || maxSize < 1) { printf("SKIP outside the domain narrow=%d posCell=%d cap=%lld maxSize=%d\n", (int)narrow, (int)posCell, cap, maxSize); return; }
   // cap <= 0 (fixed cells / obstructions, or the side margin on rows cut into short pieces, leave no free site in any bin) is INSIDE the
   // property's quantifier ("any fixed cells and obstructions", every row at least four row-heights wide): the public entry point is run
-  // and judged (completion without error, exposed centres, finite coordinates, frame); only the private replica (b) and the model ties
-  // are left out, their hypothesis being a non-empty clipped row set
+  // and judged (completion without error, exposed centres, finite coordinates, frame).  Since the repair of finding F28 the grid of such
+  // a circuit is the grid of the rows' bounding box with zero capacity (coq/Spread.v circuit_grid_area), so the private replica (b) and
+  // the model ties (bin limits, export, spreading on the final bins) are evaluated there as well; the case is marked NOCAP on the OK field
   bool nocap = cap <= 0;
+  char ncs[48] = ""; if (nocap) snprintf(ncs, sizeof ncs, " NOCAP %lld", cap);
   (void)rh;
   // (a) the public entry point with a recording callback
   Circuit ca = orig; Recorder ra; ra.c = &ca; ra.area = ca.computePlacementArea(); ra.slackX2 = margin >= 1 ? 0 : 1; ra.stopOnOverflow = true;
@@ -516,7 +518,6 @@ static void runGP(IntReader &r) {
   printf(" /"); for (int i = 0; i < ca.nbCells(); ++i) printf(" %d %d", orig.placedWidth(i), orig.placedHeight(i));
   fflush(stdout);
   if (sa == "STOPPED") { printf(" | STOPPED\n"); return; }
-  if (nocap) { printf(" | NOCAP %lld\n", cap); return; }
   // (b) the same steps as GlobalPlacer::place, with access to the private state
   Circuit cb = orig; Recorder rb; rb.c = &cb; rb.area = ra.area; rb.slackX2 = ra.slackX2;
   std::string sb = "OK";
@@ -530,7 +531,7 @@ static void runGP(IntReader &r) {
     bool same = rb.hash == ra.hash && rb.ncb == ra.ncb;
     for (int i = 0; i < ca.nbCells(); ++i) if (ca.cellX_[i] != cb.cellX_[i] || ca.cellY_[i] != cb.cellY_[i]) same = false;
     Rectangle pa = pl.leg_.placementArea();
-    printf(" | OK %d | GL %d %d ", (int)same, margin, maxSize); printModelCircuit(t); printf(" | "); printLimits(pl.leg_.grid_);
+    printf(" | OK %d%s | GL %d %d ", (int)same, ncs, margin, maxSize); printModelCircuit(t); printf(" | "); printLimits(pl.leg_.grid_);
     // EX model case: blending, cells (fixed x y placedWidth placedHeight), the four float vectors
     printf(" | EX %s %d", fme((float)p.global.exportBlending).c_str(), cb.nbCells());
     for (int i = 0; i < cb.nbCells(); ++i) printf(" %d %d %d %d %d", (int)orig.isFixed(i), orig.cellX_[i], orig.cellY_[i], orig.placedWidth(i), orig.placedHeight(i));
@@ -550,7 +551,7 @@ static void runGP(IntReader &r) {
       if (!(uby[cc] >= pl.leg_.binLimitY(j) && uby[cc] <= pl.leg_.binLimitY(j + 1))) ++outY;
     }
     printf(" | %d %d %d\n", outX, outY, inBin);
-  } catch (std::exception &e) { printf(" | THROW %s\n", e.what()); }
+  } catch (std::exception &e) { printf(" | THROW%s %s\n", ncs, e.what()); }
 }
 
 int main(int argc, char **argv) {
